@@ -81,7 +81,7 @@ theorem thInv_other {s : State} {k : Nat} {a b : Th} {L L' : List Ev} (hr : Othe
     rcases hL with rfl | ⟨e, rfl, he⟩; rfl; exact cbsOf_other k e L he
   have hrun : runCount k L' = runCount k L := by
     rcases hL with rfl | ⟨e, rfl, he⟩; rfl; exact runCount_other k e L he
-  rcases hr with rfl | rfl | ⟨hs, _, rfl⟩ | ⟨hs, rfl⟩
+  rcases hr with rfl | rfl | ⟨hs, _, _, rfl⟩ | ⟨hs, rfl⟩
   · exact ⟨by simpa [hreg, hcb, hrun] using hi.early, hi.arg, by simpa [hreg, hcb, hrun] using hi.run,
       by simpa [hreg, hcb, hrun] using hi.fdone, by simpa [hreg, hcb, hrun] using hi.late, by simpa [hreg] using hi.main⟩
   · exact ⟨by simpa [hreg, hcb, hrun] using hi.early, hi.arg, by simpa [hreg, hcb, hrun] using hi.run,
